@@ -174,6 +174,38 @@ int main(int argc, char **argv) {
       if (setjmp(on_error)) { printf("int err\n"); continue; }
       if (convert_pp_int(tok)) printf("int %lx %s\n", (unsigned long)tok->val, ty_name(tok->ty));
       else printf("int no\n");
+    } else if (!strcmp(op, "inta") && arg) {
+      // convert_pp_int on a token inside its text: inta <loc> <len> <hex text>
+      char *a2 = strtok(NULL, " \n"), *a3 = strtok(NULL, " \n");
+      int len; char *p = a3 ? parse_bytes(a3, &len) : NULL;
+      int loc = atoi(arg), tl = a2 ? atoi(a2) : 0;
+      if (!p || loc + tl > len) { printf("bad-op\n"); continue; }
+      set_file(p);
+      Token *tok = new_token(TK_PP_NUM, p + loc, p + loc + tl);
+      arm();
+      if (setjmp(on_error)) { printf("inta err\n"); continue; }
+      if (convert_pp_int(tok)) printf("inta %lx %s\n", (unsigned long)tok->val, ty_name(tok->ty));
+      else printf("inta no\n");
+    } else if (!strcmp(op, "stl") && arg) {
+      // libc strtoul itself (the function convert_pp_int calls), against the Lean model `strtoulC`: stl <base> <hex text>
+      char *a2 = strtok(NULL, " \n");
+      int len; char *p = a2 ? parse_bytes(a2, &len) : NULL;
+      if (!p) { printf("bad-op\n"); continue; }
+      char *end;
+      unsigned long v = strtoul(p, &end, atoi(arg));
+      printf("stl %lx %d\n", v, (int)(end - p));
+    } else if (!strcmp(op, "ppn") && arg) {
+      // the pp-number arm of tokenize() at text + start: the scan is inside tokenize()'s loop, so run tokenize() there and look at
+      // the first token (the generator leaves only harmless text after it)
+      char *a2 = strtok(NULL, " \n");
+      int len; char *p = a2 ? parse_bytes(a2, &len) : NULL;
+      int start = atoi(arg);
+      if (!p || start > len) { printf("bad-op\n"); continue; }
+      arm();
+      if (setjmp(on_error)) { printf("ppn err %s\n", err_name()); continue; }
+      Token *tok = first_token(p + start);
+      if (tok->kind == TK_PP_NUM && tok->loc == p + start) printf("ppn %d\n", start + tok->len);
+      else printf("ppn no\n");
     } else if (!strcmp(op, "esc") && arg) {
       int len; char *p = parse_bytes(arg, &len);
       if (!p) { printf("bad-op\n"); continue; }
